@@ -4,6 +4,7 @@
   limits of the source (generated constants) to the numbers in the property statement.
 -/
 import RdestModel.Swarm.Choke
+import RdestModel.Lemmas.Trace
 set_option linter.unusedSimpArgs false
 namespace Rdest.Props.C14
 open Rdest.Gen Rdest.Swarm
@@ -607,6 +608,78 @@ theorem T3_map_is_the_set_of_changes (M : Nat) (sorted : List CPeer) (newOpt : L
     simp [hc', haddr, change, h1]
   · simp only [hc, haddr, Bool.false_eq_true, if_false]
     exact hex
+
+/-! ### The connection task's side: own-state broadcasts on the wire (every script) -/
+
+section Wire
+open Rdest Rdest.Wire
+
+theorem step14_sound (sha1 : Bytes → Bytes) (st : Bool) (s : HState) (inp : TIn) (s' : HState) (o : List HOut)
+    (e : Option Bool) (hR : st = s.alive) (h : tstep sha1 s inp = some (s', o, e)) :
+    ∃ st', step14 st (inp, o.filterMap (obsOf sha1), e) = some st' ∧ st' = s'.alive := by
+  subst hR
+  cases ha : s.alive with
+  | false =>
+    rw [tstep_dead sha1 s ha inp] at h; cases h
+    exact ⟨false, by simp [step14, deadOk], ha.symm⟩
+  | true =>
+    have hg : (!s.alive) = false := by simp [ha]
+    cases inp with
+    | bcState entry =>
+      simp only [tstep, hstep, hg, Bool.false_eq_true, if_false] at h
+      cases entry with
+      | none => cases h; exact ⟨true, by simp [step14, expect14], ha.symm⟩
+      | some b =>
+        cases b with
+        | true => cases h; exact ⟨true, by simp [step14, expect14, obsOf], ha.symm⟩
+        | false => cases h; exact ⟨true, by simp [step14, expect14, obsOf], ha.symm⟩
+    | ticks k =>
+      simp only [tstep, ticks_facts s ha, Option.some.injEq, Prod.mk.injEq] at h
+      obtain ⟨rfl, rfl, rfl⟩ := h
+      refine ⟨_, by simp only [step14, Bool.not_true, Bool.false_eq_true, if_false]; rfl, ?_⟩
+      by_cases hh : (kaRun 2 s.keepAlive k).2.2 = true <;> simp [hh]
+    | start rep =>
+      have hc := tstep_core sha1 s ha (.start rep) (fun k c => by cases c) s' o e h
+      refine ⟨_, by simp only [step14, Bool.not_true, Bool.false_eq_true, if_false]; rfl, ?_⟩
+      cases e with
+      | none => simp [(hc.1 rfl).1]
+      | some b => simp [hc.2 (by simp)]
+    | frame m rep d =>
+      have hc := tstep_core sha1 s ha (.frame m rep d) (fun k c => by cases c) s' o e h
+      refine ⟨_, by simp only [step14, Bool.not_true, Bool.false_eq_true, if_false]; rfl, ?_⟩
+      cases e with
+      | none => simp [(hc.1 rfl).1]
+      | some b => simp [hc.2 (by simp)]
+    | recvErr =>
+      have hc := tstep_core sha1 s ha .recvErr (fun k c => by cases c) s' o e h
+      refine ⟨_, by simp only [step14, Bool.not_true, Bool.false_eq_true, if_false]; rfl, ?_⟩
+      cases e with
+      | none => simp [(hc.1 rfl).1]
+      | some b => simp [hc.2 (by simp)]
+    | eof =>
+      have hc := tstep_core sha1 s ha .eof (fun k c => by cases c) s' o e h
+      refine ⟨_, by simp only [step14, Bool.not_true, Bool.false_eq_true, if_false]; rfl, ?_⟩
+      cases e with
+      | none => simp [(hc.1 rfl).1]
+      | some b => simp [hc.2 (by simp)]
+    | bcHave i rep =>
+      have hc := tstep_core sha1 s ha (.bcHave i rep) (fun k c => by cases c) s' o e h
+      refine ⟨_, by simp only [step14, Bool.not_true, Bool.false_eq_true, if_false]; rfl, ?_⟩
+      cases e with
+      | none => simp [(hc.1 rfl).1]
+      | some b => simp [hc.2 (by simp)]
+
+/-- **C14_trace (connection task, every script).** Whatever frames, broadcasts, ticks and stream ends a connection task
+    sees, from any live state: each own-state broadcast is put on the wire as exactly the message that corresponds to
+    this connection's entry of the broadcast map (`Choke` / `Unchoke` / nothing) and does not end the task — so the
+    peer's view of its choke state follows the manager's (`T3_map_is_the_set_of_changes` says the map is exactly the
+    set of changes). -/
+theorem C14_trace (sha1 : Bytes → Bytes) (s : HState) (halive : s.alive = true) (script : List TIn) :
+    P14 (runTrace sha1 s script) = true :=
+  checkTrace_run sha1 step14 (fun st s => st = s.alive)
+    (fun st s inp s' o e hR h => step14_sound sha1 st s inp s' o e hR h) script true s halive.symm
+
+end Wire
 
 /-! ### Non-vacuity (tests): with a limit of 2, three interested peers send bitfields, then a rotation with an
     optimistic pick; the hypotheses of T1 and T2 are met by this concrete history. -/
